@@ -90,7 +90,8 @@ def configs(tier, seed):
 
 
 def conc_weights(n, k):
-    return [F(1 + ((i * 7 + k * 3) % 5), 1 + ((i + k) % 3)) for i in range(n)]
+    """concrete positive weights, none of them an integer (an integer weight hides truncation bugs)"""
+    return [F(2 * (1 + ((i * 7 + k * 3) % 5)) + 1, 2 * (1 + ((i + k) % 3))) for i in range(n)]
 
 
 def rep(kv, P, W, a):
